@@ -3,6 +3,39 @@
 import json
 
 CLAIMED = {
+ "C11": dict(
+   category="proof",
+   text="Theorems in coq/Props/C11.v and C11b.v (closed under the global context) over a Gallina model of the compiler in "
+        "which every partial Python operation is an explicit outcome (PInternal ...) and every loop is structural or "
+        "fuelled: parse_total - for ALL ASCII line lists and ALL behaviours of Python's own parser (oracles) the modelled "
+        "parse, with the modelled block extractors and line functions, returns a story or a diagnostic, never an internal "
+        "error and never out of fuel; every extractor consumes at least one line (the termination argument of the real "
+        "while loop); line_functions_total; nesting caps (100 blocks, 50 inline conditionals). Tie on every run: line-level "
+        "functions, whole inputs of every construct (valid, broken, mutated repository files) and direct extractor calls "
+        "are run through the real compiler and the model and compared inside Coq (outcome class and compiled story); "
+        "pinned probes of the six fixed crashes; per-call alarm for hangs.",
+   note="Trusted: Coq kernel + vm_compute; the hand-written parser model tied to the code by the correspondence run only; "
+        "oracles for ast.parse (py_stmt_ok, py_call_shape, py_body_is_call) filled per case with the real ast; ASCII domain; "
+        "diagnostic texts and the interpreter recursion limit are outside the model.",
+   technique="Coq proof (totality by structural/fuel induction with explicit error outcomes) + vm_compute correspondence "
+             "against the real compiler",
+   design_ref="DESIGN.md §6 C11"),
+ "C12": dict(
+   category="proof",
+   text="Theorems in coq/Props/C12.v (closed under the global context): for every story the compiler model returns - the "
+        "initial passage exists, follows @start > Start > first and can be entered without arguments; every passage is keyed "
+        "by its id; every key is a valid name; the validator's walk is sound on arbitrary token trees, hence every choice "
+        "target at any depth is a defined passage or @join and every jump target a defined passage; and the engine model's "
+        "goto chain on such a story never reaches the unknown-passage error site (_partial: stated for goto/jump chains, not "
+        "yet over choose; argument binding is C07). Tie/oracle on every run: an independent structural validator in Python "
+        "over every accepted generated, mutated and repository story (JSON round trip, token kinds, targets, argument shapes "
+        "with Python's ast), exhaustive play to depth 4-5 plus random walks with the real engine looking for unknown-passage "
+        "and binding errors, and comparison of the compiled dict with the model's story inside Coq.",
+   note="Trusted: as C11; the engine model of Engine/Engine.v. 'Only documented token kinds' holds in the model by typing "
+        "and is checked on the real dict by the Python validator.",
+   technique="Coq proof (validator soundness by token-tree induction, navigation safety by induction on the goto chain) + "
+             "vm_compute correspondence + exhaustive bounded play as failing-input search",
+   design_ref="DESIGN.md §6 C12"),
  "C01": dict(
    category="proof",
    text="Theorems in coq/Props/C01.v (closed under the global context): a source AST of the documented language (Story/Source.v), "
